@@ -21,7 +21,7 @@ from ..corpus import (
     unparse,
     walk_local,
 )
-from ..flow import EXIT, RAISE, get_cfg
+from ..flow import EXIT, RAISE, facts, get_cfg
 from ..mutant import Mutant
 from ..report import Report
 from .common import find_node, rule
@@ -39,14 +39,18 @@ META = {
         "The same extractors are applied to MyST's compute_unique_slug/default_slugify and to the parsed source of "
         "mdit_py_plugins.anchors.index (the code behind the myst-anchors command): R1 - the candidate rebuilt in the "
         "`while cand in taken` loop is composed of a loop-invariant base, a separator and a counter, and (separator, first "
-        "suffix, step) equal the plugin's; the registry handed to the uniquifier is the one the computed slug is recorded in. "
+        "suffix, step) equal the plugin's; whatever the uniquifier returns passed a `not in taken` edge after its last "
+        "definition on every CFG path; the registry handed to the uniquifier is the one the computed slug is recorded in. "
         "R2 - the regex (parsed tree, flags, replacement), the ordered str-method pipeline applied to the title, and the "
         "title construction (join separator, attribute, token-type set, inline-token offset) agree with the plugin; the CLI "
-        "installs the plugin with the level it filters by, inclusively. R3 - slug computation is dominated by "
+        "installs the plugin with the level it filters by, inclusively, builds its parser with the factory both front ends use, "
+        "overrides none of the configuration fields that factory reads and switches no syntax rule afterwards. R3 - slug computation is dominated by "
         "`level <= heading_anchors`. R4 - the configured function replaces the default only when set, its call is under a "
         "broad handler that issues exactly one HEADING_SLUG warning, stores nothing and cannot raise. R5 - the record "
         "(LINE, ID, TITLE) is unpacked by every reader of the exported registry with the ID position flowing to refid / "
-        "make_refnode(targetid) and the TITLE position to text."
+        "make_refnode(targetid) and the TITLE position to text (tuple unpacking, record variables, .get, positional fields and "
+        ".items()/.values() loops are followed). R6 - in the '#anchor' resolver a table consulted before the slug table is "
+        "filled only under docutils' explicit flag: implicit section names never pre-empt a slug."
     ),
     "not_decided": (
         "actual slug values for concrete titles; equality of rendered anchors and CLI output per document (needs the documents); "
@@ -85,10 +89,15 @@ def _assigns_to(fi: FunctionInfo, name: str) -> list[ast.stmt]:
 
 def _resolve_alias(e: ast.expr, fi: FunctionInfo) -> str:
     """Text of ``e`` with a local name that is assigned exactly once from an attribute chain replaced by that chain."""
-    if isinstance(e, ast.Name) and e.id not in fi.params:
-        ds = _assigns_to(fi, e.id)
-        if len(ds) == 1 and isinstance(ds[0], ast.Assign) and dotted(ds[0].value) is not None:
-            return unparse(ds[0].value)
+    if isinstance(e, ast.Name):
+        scope: FunctionInfo | None = fi
+        while scope is not None and not scope.is_lambda and e.id not in scope.params:
+            ds = _assigns_to(scope, e.id)
+            if ds:
+                if len(ds) == 1 and isinstance(ds[0], ast.Assign) and dotted(ds[0].value) is not None:
+                    return unparse(ds[0].value)
+                break
+            scope = scope.parent_func  # closure variable of an enclosing function
     return unparse(e)
 
 
@@ -166,22 +175,40 @@ def uniquifier_shape(fi: FunctionInfo) -> dict | None:
         and isinstance(w.test.ops[0], ast.In)
         and isinstance(w.test.left, ast.Name)
     ]
-    if not loops:
+    # equivalent spelling: `while True: if cand not in taken: return cand / break; <rebuild>`
+    forever = []
+    for w in walk_local(fi.node):
+        if isinstance(w, ast.While) and isinstance(w.test, ast.Constant) and w.test.value is True and w.body and isinstance(w.body[0], ast.If):
+            g = w.body[0]
+            t = g.test
+            if (
+                isinstance(t, ast.Compare)
+                and len(t.ops) == 1
+                and isinstance(t.ops[0], ast.NotIn)
+                and isinstance(t.left, ast.Name)
+                and not g.orelse
+                and len(g.body) == 1
+                and (isinstance(g.body[0], ast.Break) or (isinstance(g.body[0], ast.Return) and isinstance(g.body[0].value, ast.Name) and g.body[0].value.id == t.left.id))
+            ):
+                forever.append(w)
+    if not loops and not forever:
         return None
-    if len(loops) > 1:
-        raise Unsupported(f"{fi.fq}: more than one `while x in y` loop")
-    w = loops[0]
+    if len(loops) + len(forever) > 1:
+        raise Unsupported(f"{fi.fq}: more than one uniquifier loop")
+    w = (loops + forever)[0]
     if enclosing_loop(w, fi) is not None:
         raise Unsupported(f"{fi.fq}: uniquifier loop nested in another loop")
-    cand = w.test.left.id
-    taken = w.test.comparators[0]
+    test = w.test if loops else w.body[0].test
+    body = w.body if loops else w.body[1:]
+    cand = test.left.id
+    taken = test.comparators[0]
     if not isinstance(taken, ast.Name) or taken.id not in fi.params:
         raise Unsupported(f"{fi.fq}: the collection tested by the uniquifier loop is not a parameter: {short(taken, 40)}")
-    if w.orelse or not all(isinstance(st, (ast.Assign, ast.AugAssign)) for st in w.body):
+    if w.orelse or not all(isinstance(st, (ast.Assign, ast.AugAssign)) for st in body):
         raise Unsupported(f"{fi.fq}: uniquifier loop body is not a straight line of assignments")
     defs = _loop_defs(w)
     if taken.id in defs or any(
-        isinstance(c, ast.Call) and isinstance(c.func, ast.Attribute) and unparse(c.func.value) == taken.id for st in w.body for c in ast.walk(st)
+        isinstance(c, ast.Call) and isinstance(c.func, ast.Attribute) and unparse(c.func.value) == taken.id for st in body for c in ast.walk(st)
     ):
         raise Unsupported(f"{fi.fq}: the taken-collection is modified inside the loop")
     cand_defs = [d for d in defs.get(cand, [])]
@@ -218,7 +245,7 @@ def uniquifier_shape(fi: FunctionInfo) -> dict | None:
         raise Unsupported(f"{fi.fq}: initial value of the counter `{counter}` is not a literal")
     start_node = pre[-1].value
     start = start_node.value
-    first = start if w.body.index(inc) > w.body.index(cdef) else start + step
+    first = start if body.index(inc) > body.index(cdef) else start + step
     # base invariance
     seen = set()
     b = base
@@ -248,12 +275,10 @@ def uniquifier_shape(fi: FunctionInfo) -> dict | None:
         )
         if not linked:
             raise Unsupported(f"{fi.fq}: cannot see that the first candidate `{cand}` equals the base `{base}`")
-    # the function returns the candidate
-    rets = [r for r in walk_local(fi.node) if isinstance(r, ast.Return)]
-    if not rets or not all(isinstance(r.value, ast.Name) and r.value.id == cand for r in rets):
-        raise Unsupported(f"{fi.fq}: the function does not simply return the candidate `{cand}`")
     return {
         "loop": w,
+        "test": test,
+        "body": body,
         "cand": cand,
         "base": base,
         "counter": counter,
@@ -309,12 +334,103 @@ def _cus_call_sites(corpus: Corpus) -> list[tuple[FunctionInfo, ast.Call]]:
 
 @rule("C10.R1")
 def r1_uniquifier(corpus: Corpus, rep: Report, tier: str):
-    rep.rule("C10.R1", "uniquifier: candidate = invariant base + separator + counter, equal to the plugin's; slug recorded in the registry it was checked against")
+    rep.rule("C10.R1", "uniquifier: returned slug re-checked against the registry; candidate = invariant base + separator + counter, equal to the plugin's; slug recorded in the registry it was checked against")
     cus = corpus.func(CUS)
     rep.saw_function(cus.fq)
-    sh = uniquifier_shape(cus)
+    # (d) whatever is returned was tested against the registry after its last definition
+    unchecked = _recheck_clause(corpus, cus, rep)
+    try:
+        sh = uniquifier_shape(cus)
+        shape_problem = None if sh is not None else "no `while cand in taken` loop (uniquifier moved or rewritten)"
+    except Unsupported as e:
+        sh, shape_problem = None, str(e)
     if sh is None:
-        raise Unsupported(f"{cus.fq}: no `while cand in taken` loop (uniquifier moved or rewritten)")
+        if not unchecked:
+            raise Unsupported(f"{cus.fq}: {shape_problem}")
+        # the function is already shown to hand out taken slugs; the suffix format of a shape that is not a
+        # uniquifier loop is not compared
+        rep.note(f"C10.R1: suffix format not compared: {shape_problem}")
+    else:
+        _r1_shape(corpus, rep, cus, sh)
+    _r1_registry(corpus, rep, cus)
+    rep.expect_min("C10.R1", 2, "re-check clause, one call site (plus base invariance and suffix format when the loop shape is recognised)")
+
+
+def _recheck_clause(corpus: Corpus, cus: FunctionInfo, rep: Report) -> bool:
+    """R1(d). True when a violation was reported."""
+    taken = uniq_taken_param(corpus)
+    cfg = get_cfg(cus)
+    rets = [r for r in walk_local(cus.node) if isinstance(r, ast.Return)]
+    if not rets:
+        raise Unsupported(f"{cus.fq}: no return statement")
+    taken_names = {taken} | {
+        n.targets[0].id
+        for n in walk_local(cus.node)
+        if isinstance(n, ast.Assign) and len(n.targets) == 1 and isinstance(n.targets[0], ast.Name) and isinstance(n.value, ast.Name) and n.value.id == taken
+    }
+
+    def free_edges(var: str) -> set:
+        out = set()
+        for st in walk_local(cus.node):
+            if isinstance(st, (ast.If, ast.While)):
+                for pol in (True, False):
+                    for t, p in facts(st.test, pol):
+                        if (
+                            isinstance(t, ast.Compare)
+                            and len(t.ops) == 1
+                            and isinstance(t.left, ast.Name)
+                            and t.left.id == var
+                            and isinstance(t.comparators[0], ast.Name)
+                            and t.comparators[0].id in taken_names
+                            and ((isinstance(t.ops[0], ast.In) and not p) or (isinstance(t.ops[0], ast.NotIn) and p))
+                        ):
+                            out.add(("T" if pol else "F", st))
+        return out
+
+    bad = False
+    for r in rets:
+        k = f"{cus.fq}|returned slug was tested against the registry"
+        site = cus.module.site(r)
+        if not isinstance(r.value, ast.Name):
+            raise Unsupported(f"{site}: the uniquifier returns an expression, not a tested name: {short(r.value, 40)}")
+        var = r.value.id
+        sink: ast.AST = r
+        for _ in range(4):  # `result = uniq; return result`: judge the copied name at the copy
+            ds = _assigns_to(cus, var)
+            if var not in cus.params and len(ds) == 1 and isinstance(ds[0], ast.Assign) and isinstance(ds[0].value, ast.Name):
+                var, sink = ds[0].value.id, ds[0]
+            else:
+                break
+        ok_edges = free_edges(var)
+        defs: list = list(_assigns_to(cus, var))
+        if var in cus.params:
+            defs.append("ENTRY")
+        if not defs:
+            raise Unsupported(f"{site}: no definition of `{var}` found")
+        leak = None
+        for d in defs:
+            # a path through another definition is judged from that definition
+            if cfg.paths_avoiding(d, sink, lambda n, d=d: n in ok_edges or (n in defs and n is not d)):
+                leak = d
+                break
+        if leak is None:
+            rep.ok("C10.R1", k, site, f"every path from a definition of `{var}` to the return passes a `{var} not in {taken}` edge")
+        else:
+            bad = True
+            where = "the function entry" if leak == "ENTRY" else f"`{short(leak, 50)}`"
+            rep.violation(
+                "C10.R1",
+                k,
+                site,
+                f"`{var}` can be returned without having been tested against `{taken}` after {where}: "
+                + ("it is never tested at all" if not ok_edges else "the test does not cover that definition")
+                + " - two headings can receive the same anchor",
+                [f"{cus.module.site(leak) if leak != 'ENTRY' else cus.site()} definition", f"{site} return {var}"],
+            )
+    return bad
+
+
+def _r1_shape(corpus: Corpus, rep: Report, cus: FunctionInfo, sh: dict) -> None:
     sib = _sibling(corpus, rep)
     sfi, ssh = _sibling_uniquifier(sib)
     site = cus.module.site(sh["cdef"])
@@ -327,7 +443,7 @@ def r1_uniquifier(corpus: Corpus, rep: Report, tier: str):
             site,
             f"the candidate is rebuilt from a loop-variant base ({sh['variant']}): suffixes accumulate - the third equal title gets "
             f"`x{sh['sep']}{sh['first']}{sh['sep']}{sh['first'] + sh['step']}` where the rule (and {SIBLING}:{sfi.qualname}) gives `x{ssh['sep']}{ssh['first'] + ssh['step']}`",
-            [f"{site} {short(sh['cdef'], 60)}", f"loop: while {short(sh['loop'].test, 40)}"],
+            [f"{site} {short(sh['cdef'], 60)}", f"loop: while {short(sh['test'], 40)}"],
         )
     else:
         rep.ok("C10.R1", k, site, f"base `{sh['base']}` has no definition inside the loop")
@@ -338,12 +454,16 @@ def r1_uniquifier(corpus: Corpus, rep: Report, tier: str):
         rep.ok("C10.R1", k, site, f"(separator, first suffix, step) = {mine} as in {sfi.qualname}")
     else:
         rep.violation("C10.R1", k, site, f"(separator, first suffix, step) = {mine} but {SIBLING}:{sfi.qualname} (the myst-anchors CLI) uses {theirs}")
+
+
+def _r1_registry(corpus: Corpus, rep: Report, cus: FunctionInfo) -> None:
     # (c) registry identity at every call site
-    pidx = cus.params.index(sh["taken"])
+    taken = uniq_taken_param(corpus)
+    pidx = cus.params.index(taken)
     for fi, call in _cus_call_sites(corpus):
         rep.saw_function(fi.fq)
         rep.saw_call(fi.module.site(call))
-        reg = arg_or_kw(call, pidx, sh["taken"])
+        reg = arg_or_kw(call, pidx, taken)
         csite = fi.module.site(call)
         k = f"{fi.fq}|registry passed to compute_unique_slug"
         if reg is None or dotted(reg) is None:
@@ -383,7 +503,6 @@ def r1_uniquifier(corpus: Corpus, rep: Report, tier: str):
             if handed_on or other_store:
                 raise Unsupported(f"{csite}: how `{res}` is recorded in `{unparse(reg)}` is not understood")
             rep.violation("C10.R1", k, csite, f"the computed slug `{res}` is never recorded in `{unparse(reg)}`: a later equal title gets the same anchor")
-    rep.expect_min("C10.R1", 3, "base invariance, suffix format, one call site")
 
 
 # ---------------------------------------------------------------------------
@@ -637,7 +756,7 @@ def _fp_val(fp: dict) -> dict:
 
 @rule("C10.R2")
 def r2_sibling_agreement(corpus: Corpus, rep: Report, tier: str):
-    rep.rule("C10.R2", "slug regex, str pipeline and title construction agree with mdit_py_plugins.anchors; the CLI filters by the level it configures")
+    rep.rule("C10.R2", "slug regex, str pipeline and title construction agree with mdit_py_plugins.anchors; the CLI filters by the level it configures and tokenises like a default-configured render")
     sib = _sibling(corpus, rep)
     dfi, _sel = _default_slug_func(corpus)
     sfi = _sibling_default_slug_func(sib)
@@ -799,6 +918,145 @@ def _r2_cli(corpus: Corpus, rep: Report, sib: Module) -> None:
         rep.violation("C10.R2", k, cli.site(cmp_), "; ".join(problems))
     else:
         rep.ok("C10.R2", k, cli.site(cmp_), f"max_level={mx_text}, filter level <= {unparse(other)}")
+    _r2_cli_tokeniser(corpus, rep, cli, pa, fam, use)
+
+
+# fields the parser factory reads that cannot change a token (re-verified on every run)
+_FACTORY_NEUTRAL = {"words_per_minute": "only passed as per_minute= to the word-count plugin, which emits no token"}
+
+
+def _factory_fields(corpus: Corpus, factory: FunctionInfo) -> dict[str, list[ast.Attribute]]:
+    """Config fields the parser factory reads (attributes of its first parameter)."""
+    cfgp = factory.params[0]
+    out: dict[str, list[ast.Attribute]] = {}
+    for n in walk_local(factory.node):
+        if isinstance(n, ast.Attribute) and isinstance(n.value, ast.Name) and n.value.id == cfgp and isinstance(n.ctx, ast.Load):
+            out.setdefault(n.attr, []).append(n)
+    for fld in list(out):
+        if fld in _FACTORY_NEUTRAL:
+            for n in out[fld]:
+                q = parent(n)
+                c = parent(q) if isinstance(q, ast.keyword) else None
+                if not (isinstance(q, ast.keyword) and q.arg == "per_minute" and isinstance(c, ast.Call) and any(isinstance(a, ast.Name) and a.id == "wordcount_plugin" for a in c.args)):
+                    break
+            else:
+                del out[fld]
+    return out
+
+
+def _field_default(corpus: Corpus, fld: str):
+    ci = corpus.cls("config.main:MdParserConfig")
+    for st in ci.node.body:
+        if isinstance(st, ast.AnnAssign) and isinstance(st.target, ast.Name) and st.target.id == fld:
+            v = st.value
+            if isinstance(v, ast.Call) and (dotted(v.func) or "").endswith("field"):
+                d = kwarg(v, "default")
+                if d is not None:
+                    return ci.module.eval_const(d)
+                fac = kwarg(v, "default_factory")
+                if isinstance(fac, ast.Name) and fac.id in ("set", "list", "dict", "tuple", "frozenset"):
+                    return {"set": set(), "list": [], "dict": {}, "tuple": (), "frozenset": frozenset()}[fac.id]
+            elif v is not None:
+                return ci.module.eval_const(v)
+            raise Unsupported(f"default of MdParserConfig.{fld} not understood")
+    raise Unsupported(f"MdParserConfig has no field {fld}")
+
+
+def _r2_cli_tokeniser(corpus: Corpus, rep: Report, cli: Module, pa: FunctionInfo, fam: list[FunctionInfo], use: ast.Call) -> None:
+    """The CLI must tokenise the file as a default-configured render does: same factory, default config, no rule switched."""
+    g = get_callgraph(corpus)
+    # the factory the two front ends use
+    fronts = [corpus.func("parsers.docutils_:Parser.parse"), corpus.func("parsers.sphinx_:MystParser.parse")]
+    factories = set()
+    for fr in fronts:
+        hit = None
+        for call, targets in g.callees(fr):
+            for t in g.flat_targets(targets):
+                if len(call.args) == 2 and (dotted(call.args[1]) or "").endswith("Renderer") and t.module.name.endswith("parsers.mdit"):
+                    hit = t
+        if hit is None:
+            raise Unsupported(f"{fr.fq}: parser factory call not found")
+        factories.add(hit.fq)
+    if len(factories) != 1:
+        raise Unsupported(f"front ends build their parsers with different factories: {sorted(factories)}")
+    factory = corpus.func(factories.pop().replace("myst_parser.", "", 1))
+    rep.saw_function(factory.fq)
+    calls = [(call, targets) for call, targets in g.callees(pa) if any(t.fq == factory.fq for t in g.flat_targets(targets))]
+    k = f"{pa.fq}|CLI parser built by the renderers' factory with the default configuration"
+    # the parser object `.use(anchors_plugin)` is applied to
+    pvar = use.func.value
+    if not calls:
+        if isinstance(pvar, ast.Name):
+            ds = _assigns_to(pa, pvar.id)
+            if len(ds) == 1 and isinstance(ds[0], ast.Assign) and isinstance(ds[0].value, ast.Call):
+                full = cli.resolve(dotted(ds[0].value.func) or "")
+                if full.startswith("markdown_it."):
+                    rep.violation(
+                        "C10.R2", k, cli.site(ds[0]),
+                        f"myst-anchors builds its own `{short(ds[0].value, 50)}` instead of calling {factory.qualname}: MyST block/inline syntax (front matter, % comments, roles, ...) is tokenised differently than when the file is rendered",
+                    )
+                    return
+        raise Unsupported(f"{pa.fq}: no call of {factory.qualname} found")
+    if len(calls) != 1:
+        raise Unsupported(f"{pa.fq}: several calls of {factory.qualname}")
+    fcall = calls[0][0]
+    rep.saw_call(cli.site(fcall))
+    carg = arg_or_kw(fcall, 0, factory.params[0])
+    if isinstance(carg, ast.Name):
+        ds = _assigns_to(pa, carg.id)
+        if len(ds) != 1 or not isinstance(ds[0], ast.Assign):
+            raise Unsupported(f"{cli.site(fcall)}: configuration `{carg.id}` is not assigned exactly once")
+        carg = ds[0].value
+    if not isinstance(carg, ast.Call):
+        raise Unsupported(f"{cli.site(fcall)}: configuration argument not understood: {short(carg, 40) if carg is not None else None}")
+    overrides: dict[str, ast.expr] = {}
+    node = carg
+    while True:  # MdParserConfig(**kw) optionally followed by .copy(**kw)
+        if any(kw.arg is None for kw in node.keywords) or node.args:
+            raise Unsupported(f"{cli.site(node)}: configuration built with positional / ** arguments")
+        for kw in node.keywords:
+            overrides.setdefault(kw.arg, kw.value)
+        if isinstance(node.func, ast.Attribute) and node.func.attr == "copy" and isinstance(node.func.value, ast.Call):
+            node = node.func.value
+            continue
+        break
+    if not cli.resolve(dotted(node.func) or "").endswith("config.main.MdParserConfig"):
+        raise Unsupported(f"{cli.site(node)}: configuration is not an MdParserConfig(...) construction")
+    fields = _factory_fields(corpus, factory)
+    if len(fields) < 5:
+        raise Unsupported(f"{factory.fq}: reads only {len(fields)} config fields; factory not understood")
+    bad = {}
+    for f_, v in overrides.items():
+        if f_ not in fields:
+            continue
+        try:
+            val = cli.eval_const(v)
+        except Unsupported:
+            raise Unsupported(f"{cli.site(v)}: myst-anchors sets {f_}={short(v, 30)} from a run-time value; whether it equals the rendering configuration is not decided") from None
+        if val != _field_default(corpus, f_):
+            bad[f_] = v
+    csite = cli.site(fcall)
+    if bad:
+        rep.violation(
+            "C10.R2", k, csite,
+            "myst-anchors parses with " + ", ".join(f"{f_}={unparse(v)}" for f_, v in sorted(bad.items()))
+            + f": {factory.qualname} reads {'these fields' if len(bad) > 1 else 'this field'} to choose the syntax rules, so the CLI tokenises the file differently from a "
+            "default-configured render (headings appear/disappear or their inline content changes) and the printed anchors differ from the assigned ones",
+        )
+    else:
+        rep.ok("C10.R2", k, csite, f"{short(carg, 50)}; none of the {len(fields)} fields the factory reads is overridden")
+    # no syntax rule switched on/off after construction
+    k = f"{pa.fq}|CLI does not switch syntax rules after construction"
+    switched = []
+    for f in fam:
+        nodes_ = ast.walk(f.node.body) if f.is_lambda else walk_local(f.node, into_lambdas=False)
+        for n in nodes_:
+            if isinstance(n, ast.Call) and isinstance(n.func, ast.Attribute) and n.func.attr in ("enable", "disable", "enableOnly"):
+                switched.append(n)
+    if switched:
+        rep.violation("C10.R2", k, cli.site(switched[0]), f"`{short(switched[0], 60)}` changes the active syntax rules of the parser the renderers use unchanged: the CLI tokenises differently")
+    else:
+        rep.ok("C10.R2", k, cli.site(fcall))
 
 
 # ---------------------------------------------------------------------------
@@ -1112,10 +1370,15 @@ def r4_foreign_callable(corpus: Corpus, rep: Report, tier: str):
 
 def uniq_taken_param(corpus: Corpus) -> str:
     def build():
-        sh = uniquifier_shape(corpus.func(CUS))
-        if sh is None:
-            raise Unsupported("no uniquifier loop")
-        return sh["taken"]
+        cus = corpus.func(CUS)
+        # the parameter that stands on the right of an `in` / `not in` test (or is iterated) in the uniquifier
+        hits = set()
+        for n in walk_local(cus.node):
+            if isinstance(n, ast.Compare) and len(n.ops) == 1 and isinstance(n.ops[0], (ast.In, ast.NotIn)) and isinstance(n.comparators[0], ast.Name) and n.comparators[0].id in cus.params:
+                hits.add(n.comparators[0].id)
+        if len(hits) != 1:
+            raise Unsupported(f"{cus.fq}: cannot tell which parameter is the registry of taken slugs ({sorted(hits)})")
+        return hits.pop()
 
     return corpus.cache("c10-taken", build)
 
@@ -1251,70 +1514,300 @@ def r5_record_layout(corpus: Corpus, rep: Report, tier: str):
     rep.expect_min("C10.R5", 2, "readers of document.myst_slugs and env.metadata[...]['myst_slugs']")
 
 
+def _reader_var(r: ast.AST) -> str | None:
+    """Local name the table read by expression ``r`` is bound to (through `<r> or {}`)."""
+    st = parent(r)
+    while isinstance(st, ast.BoolOp) and isinstance(st.op, ast.Or) and st.values[0] is r and all(isinstance(v, (ast.Dict, ast.Call)) and not getattr(v, "keys", None) and not getattr(v, "args", None) for v in st.values[1:]):
+        r, st = st, parent(st)
+    if isinstance(st, ast.AnnAssign) and st.value is r and isinstance(st.target, ast.Name):
+        return st.target.id
+    if isinstance(st, ast.Assign) and st.value is r and len(st.targets) == 1 and isinstance(st.targets[0], ast.Name):
+        return st.targets[0].id
+    return None
+
+
+_ID_KEYS = ("refid", "ids", "reftargetid")
+_TEXT_CTORS = ("inline", "Text", "literal", "emphasis", "strong")
+
+
+def _direct_sink(node: ast.AST) -> str | None:
+    """'id' / 'text' when the expression ``node`` itself stands in a sink position."""
+    q = parent(node)
+    if isinstance(q, ast.Assign) and q.value is node:
+        if any(isinstance(t, ast.Subscript) and isinstance(t.slice, ast.Constant) and t.slice.value in _ID_KEYS for t in q.targets):
+            return "id"
+    if isinstance(q, ast.keyword) and q.value is node and q.arg in ("refid", "targetid", "reftargetid"):
+        return "id"
+    if isinstance(q, ast.Call) and node in q.args:
+        last = (dotted(q.func) or "").split(".")[-1]
+        if last == "make_refnode" and q.args.index(node) == 3:
+            return "id"
+        if last in _TEXT_CTORS:
+            return "text"
+    return None
+
+
 def _check_reader(f: FunctionInfo, r: ast.AST, name: str, kinds: list[str], p_id: int, p_title: int, rep: Report) -> None:
     site = f.module.site(r)
-    st = parent(r)
-    if isinstance(st, ast.AnnAssign) and st.value is r and isinstance(st.target, ast.Name):
-        var = st.target.id
-    elif isinstance(st, ast.Assign) and st.value is r and len(st.targets) == 1 and isinstance(st.targets[0], ast.Name):
-        var = st.targets[0].id
-    else:
+    var = _reader_var(r)
+    if var is None:
         raise Unsupported(f"{site}: reader of `{name}` is not bound to a local name")
-    accesses = []
-    for n in f.local_nodes():
-        if isinstance(n, ast.Name) and n.id == var and isinstance(n.ctx, ast.Load):
-            p = parent(n)
-            if isinstance(p, ast.Subscript) and p.value is n:
-                accesses.append(p)
-            elif isinstance(p, ast.Compare) and n in p.comparators and all(isinstance(o, (ast.In, ast.NotIn)) for o in p.ops):
-                continue
-            elif isinstance(p, (ast.If, ast.While, ast.BoolOp, ast.UnaryOp)):
-                continue
-            else:
-                raise Unsupported(f"{f.module.site(n)}: use of the slug table `{var}` not understood: {short(p, 50)}")
-    if not accesses:
-        raise Unsupported(f"{site}: `{var}` is read from `{name}` but no record is ever taken out of it")
     idn, txn = _alias_closure(_id_sink_names(f), f), _alias_closure(_text_sink_names(f), f)
-    for a in accesses:
-        p = parent(a)
-        asite = f.module.site(a)
-        k = f"{f.fq}|unpack of {name} record {short(a, 40)}"
-        if isinstance(p, ast.Assign) and p.value is a and len(p.targets) == 1 and isinstance(p.targets[0], ast.Tuple):
-            elts = p.targets[0].elts
-            if not all(isinstance(e, ast.Name) for e in elts):
-                raise Unsupported(f"{asite}: unpack target not understood")
-            names = [e.id for e in elts]
-            if len(names) != len(kinds):
-                rep.violation("C10.R5", k, asite, f"reader unpacks {len(names)} fields, the writer stores {len(kinds)} ({kinds})")
-                continue
-            problems = []
-            undecided = []
-            used = {n.id for n in f.local_nodes() if isinstance(n, ast.Name) and isinstance(n.ctx, ast.Load)}
-            if names[p_id] not in idn:
-                if names[p_id] == "_" or names[p_id] not in used:
-                    problems.append(f"position {p_id} (the section id in the writer) is discarded: the reference cannot point at the heading")
-                else:
-                    undecided.append(f"position {p_id} (the section id) goes to `{names[p_id]}`, whose use is not a recognised id sink (refid / make_refnode targetid)")
-            for i, nm in enumerate(names):
-                if i != p_id and nm in idn and nm != "_":
-                    problems.append(f"position {i} ({kinds[i]} in the writer) is unpacked into `{nm}`, which is used as the reference id")
-                if i != p_title and nm in txn and nm != "_":
-                    problems.append(f"position {i} ({kinds[i]} in the writer) is unpacked into `{nm}`, which is used as the link text")
-            if names[p_title] != "_" and names[p_title] in used and names[p_title] not in txn and names[p_title] not in idn:
-                undecided.append(f"position {p_title} (the title) goes to `{names[p_title]}`, whose use is not a recognised text sink")
-            if problems:
-                rep.violation("C10.R5", k, asite, "; ".join(problems))
-            elif undecided:
-                raise Unsupported(f"{asite}: {'; '.join(undecided)}")
-            else:
-                rep.ok("C10.R5", k, asite, f"({', '.join(names)}) against writer kinds {kinds}")
-        elif isinstance(p, ast.Subscript) and p.value is a and isinstance(p.slice, ast.Constant) and isinstance(p.slice.value, int):
-            raise Unsupported(f"{asite}: positional access `{short(p, 40)}` to the slug record (not yet modelled)")
+    used = {n.id for n in f.local_nodes() if isinstance(n, ast.Name) and isinstance(n.ctx, ast.Load)}
+    # groups: (site node, label, {position: (use kinds, text)}, full arity or None)
+    groups: list[tuple[ast.AST, str, dict[int, tuple[set[str], str]], int | None]] = []
+
+    def name_uses(nm: str) -> set[str]:
+        if nm == "_" or nm not in used:
+            return {"unused"}
+        u = set()
+        if nm in idn:
+            u.add("id")
+        if nm in txn:
+            u.add("text")
+        return u or {"unknown"}
+
+    def unpack(target: ast.expr, where: ast.AST, label: str) -> None:
+        if not (isinstance(target, ast.Tuple) and all(isinstance(e, ast.Name) for e in target.elts)):
+            raise Unsupported(f"{f.module.site(where)}: unpack target of a slug record not understood: {short(target, 40)}")
+        groups.append((where, label, {i: (name_uses(e.id), f"`{e.id}`") for i, e in enumerate(target.elts)}, len(target.elts)))
+
+    def positional(node: ast.Subscript, label: str) -> None:
+        i = node.slice.value
+        if i < 0:
+            i += len(kinds)
+        q = parent(node)
+        d = _direct_sink(node)
+        if d is not None:
+            groups.append((node, label, {i: ({d}, f"`{short(node, 40)}`")}, None))
+        elif isinstance(q, ast.Assign) and q.value is node and len(q.targets) == 1 and isinstance(q.targets[0], ast.Name):
+            groups.append((node, label, {i: (name_uses(q.targets[0].id), f"`{q.targets[0].id}`")}, None))
+        elif isinstance(q, (ast.Compare, ast.If, ast.While, ast.BoolOp, ast.UnaryOp, ast.IfExp)) and not (isinstance(q, ast.IfExp) and q.test is not node):
+            return
         else:
-            raise Unsupported(f"{asite}: slug record used without unpacking: {short(p, 50)}")
+            raise Unsupported(f"{f.module.site(node)}: use of field {i} of a slug record not understood: {short(q, 50)}")
+
+    def follow(rec: str, label: str) -> None:
+        n_use = 0
+        for n in f.local_nodes():
+            if isinstance(n, ast.Name) and n.id == rec and isinstance(n.ctx, ast.Load):
+                q = parent(n)
+                if isinstance(q, ast.Assign) and q.value is n and len(q.targets) == 1 and isinstance(q.targets[0], ast.Tuple):
+                    unpack(q.targets[0], q, label)
+                    n_use += 1
+                elif isinstance(q, ast.Subscript) and q.value is n and isinstance(q.slice, ast.Constant) and isinstance(q.slice.value, int):
+                    positional(q, label)
+                    n_use += 1
+                elif isinstance(q, (ast.Compare, ast.If, ast.While, ast.BoolOp, ast.UnaryOp)) or (isinstance(q, ast.IfExp) and q.test is n):
+                    continue
+                else:
+                    raise Unsupported(f"{f.module.site(n)}: use of the slug record `{rec}` not understood: {short(q, 50)}")
+        if not n_use:
+            raise Unsupported(f"{site}: record `{rec}` is taken out of `{var}` but none of its fields is used")
+
+    def record(expr: ast.AST) -> None:
+        q = parent(expr)
+        label = short(expr, 40)
+        if isinstance(q, ast.Assign) and q.value is expr and len(q.targets) == 1:
+            t = q.targets[0]
+            if isinstance(t, ast.Tuple):
+                unpack(t, expr, label)
+            elif isinstance(t, ast.Name):
+                follow(t.id, label)
+            else:
+                raise Unsupported(f"{f.module.site(expr)}: slug record stored in {short(t, 30)}")
+        elif isinstance(q, ast.Subscript) and q.value is expr and isinstance(q.slice, ast.Constant) and isinstance(q.slice.value, int):
+            positional(q, label)
+        elif isinstance(q, ast.NamedExpr) and q.value is expr and isinstance(q.target, ast.Name):
+            follow(q.target.id, label)
+        else:
+            raise Unsupported(f"{f.module.site(expr)}: slug record used without unpacking: {short(q, 50)}")
+
+    def iterated(call: ast.Call, method: str) -> None:
+        q = parent(call)
+        if isinstance(q, (ast.For, ast.comprehension)) and q.iter is call:
+            t = q.target
+            label = short(call, 40)
+            if method == "items":
+                if not (isinstance(t, ast.Tuple) and len(t.elts) == 2):
+                    raise Unsupported(f"{f.module.site(call)}: loop target over .items() not understood")
+                t = t.elts[1]
+            if isinstance(t, ast.Tuple):
+                unpack(t, call, label)
+            elif isinstance(t, ast.Name):
+                follow(t.id, label)
+            else:
+                raise Unsupported(f"{f.module.site(call)}: loop target not understood")
+        else:
+            raise Unsupported(f"{f.module.site(call)}: `{short(call, 40)}` is not iterated directly")
+
+    for n in f.local_nodes():
+        if not (isinstance(n, ast.Name) and n.id == var and isinstance(n.ctx, ast.Load)):
+            continue
+        q = parent(n)
+        if isinstance(q, ast.Subscript) and q.value is n:
+            record(q)
+        elif isinstance(q, ast.Attribute) and q.value is n and isinstance(parent(q), ast.Call) and parent(q).func is q:
+            c = parent(q)
+            if q.attr == "get" and 1 <= len(c.args) <= 2:
+                record(c)
+            elif q.attr in ("items", "values") and not c.args:
+                iterated(c, q.attr)
+            elif q.attr == "keys" and not c.args:
+                continue
+            else:
+                raise Unsupported(f"{f.module.site(n)}: method `{q.attr}` on the slug table not understood")
+        elif isinstance(q, ast.Compare) or isinstance(q, (ast.If, ast.While, ast.BoolOp, ast.UnaryOp)) or (isinstance(q, ast.IfExp) and q.test is n):
+            continue  # membership / None / emptiness tests do not read a record
+        elif isinstance(q, ast.Call) and dotted(q.func) in ("len", "bool", "list", "sorted", "set") and n in q.args:
+            continue  # keys only
+        elif isinstance(q, (ast.For, ast.comprehension)) and q.iter is n:
+            continue  # keys only
+        else:
+            raise Unsupported(f"{f.module.site(n)}: use of the slug table `{var}` not understood: {short(q, 50)}")
+    if not groups:
+        raise Unsupported(f"{site}: `{var}` is read from `{name}` but no record field is ever used")
+    for where, label, pos, arity in groups:
+        asite = f.module.site(where)
+        k = f"{f.fq}|unpack of {name} record {label}" + ("" if arity is not None else f" field {sorted(pos)[0]}")
+        if arity is not None and arity != len(kinds):
+            rep.violation("C10.R5", k, asite, f"reader unpacks {arity} fields, the writer stores {len(kinds)} ({kinds})")
+            continue
+        problems, undecided = [], []
+        for i, (uses, text) in sorted(pos.items()):
+            if i >= len(kinds):
+                problems.append(f"field {i} is read, the writer stores only {len(kinds)} fields")
+                continue
+            if "id" in uses and i != p_id:
+                problems.append(f"position {i} ({kinds[i]} in the writer) goes to {text}, which is used as the reference id")
+            if "text" in uses and i != p_title:
+                problems.append(f"position {i} ({kinds[i]} in the writer) goes to {text}, which is used as the link text")
+            if i == p_id and "id" not in uses:
+                if uses == {"unused"}:
+                    if arity is not None:
+                        problems.append(f"position {p_id} (the section id in the writer) is discarded: the reference cannot point at the heading")
+                elif "text" not in uses:
+                    undecided.append(f"position {p_id} (the section id) goes to {text}, whose use is not a recognised id sink (refid / make_refnode targetid)")
+            if i == p_title and uses == {"unknown"}:
+                undecided.append(f"position {p_title} (the title) goes to {text}, whose use is not a recognised text sink")
+        if problems:
+            rep.violation("C10.R5", k, asite, "; ".join(problems))
+        elif undecided:
+            raise Unsupported(f"{asite}: {'; '.join(undecided)}")
+        else:
+            rep.ok("C10.R5", k, asite, ", ".join(f"{i}:{kinds[i]}->{t}" for i, (u, t) in sorted(pos.items())))
 
 
-RULES = [r1_uniquifier, r2_sibling_agreement, r3_depth, r4_foreign_callable, r5_record_layout]
+# ---------------------------------------------------------------------------
+# R6 what may pre-empt the slug lookup
+
+
+def _stores_refid(stmts: list[ast.stmt]) -> bool:
+    for st in stmts:
+        for n in ast.walk(st):
+            if isinstance(n, ast.Assign) and any(isinstance(t, ast.Subscript) and isinstance(t.slice, ast.Constant) and t.slice.value == "refid" for t in n.targets):
+                return True
+    return False
+
+
+def _membership_table(test: ast.expr) -> str | None:
+    """T when ``test`` holding implies `<key> in T` for a local name T."""
+    for t, pol in facts(test, True):
+        if isinstance(t, ast.Compare) and len(t.ops) == 1 and isinstance(t.comparators[0], ast.Name):
+            if (isinstance(t.ops[0], ast.In) and pol) or (isinstance(t.ops[0], ast.NotIn) and not pol):
+                return t.comparators[0].id
+    return None
+
+
+def _is_nametypes(e: ast.AST) -> bool:
+    return isinstance(e, ast.Attribute) and e.attr == "nametypes"
+
+
+def _explicit_only(f: FunctionInfo, store: ast.AST, table: str) -> tuple[str, str]:
+    """('ok'|'bad', reason) for one population site of ``table``; Unsupported when the source is not docutils' name registry."""
+    cfg = get_cfg(f)
+    loop = None
+    p = parent(store)
+    while p is not None and p is not f.node:
+        if isinstance(p, ast.For):
+            loop = p
+            break
+        p = parent(p)
+    if loop is None:
+        raise Unsupported(f"{f.module.site(store)}: `{table}` is filled outside a loop over the document's names")
+    it = loop.iter
+    flag = None  # expression whose truth means "explicit"
+    if isinstance(it, ast.Call) and isinstance(it.func, ast.Attribute) and it.func.attr == "items" and _is_nametypes(it.func.value):
+        if not (isinstance(loop.target, ast.Tuple) and len(loop.target.elts) == 2 and isinstance(loop.target.elts[1], ast.Name)):
+            raise Unsupported(f"{f.module.site(loop)}: loop target over nametypes.items() not understood")
+        flag = loop.target.elts[1].id
+    elif _is_nametypes(it) or (isinstance(it, ast.Call) and isinstance(it.func, ast.Attribute) and it.func.attr == "keys" and _is_nametypes(it.func.value)) or (isinstance(it, ast.Attribute) and it.attr == "nameids"):
+        flag = None
+    else:
+        raise Unsupported(f"{f.module.site(loop)}: `{table}` is filled from `{short(it, 40)}`, not from the document's name registry")
+    st = cfg.stmt_of(store)
+    for t, pol in cfg.guards(st):
+        if flag is not None and isinstance(t, ast.Name) and t.id == flag:
+            return ("ok", f"guarded by `{flag}`") if pol else ("bad", f"entries are added only when `{flag}` is false: implicit names only")
+        if isinstance(t, ast.Subscript) and _is_nametypes(t.value):
+            return ("ok", f"guarded by `{short(t, 40)}`") if pol else ("bad", f"entries are added only when `{short(t, 40)}` is false")
+        if flag is not None and flag in _names(t):
+            raise Unsupported(f"{f.module.site(t)}: test on the explicit flag not understood: {short(t, 40)}")
+    return ("bad", f"every name in `{short(it, 40)}` is entered, whether docutils marks it explicit or not")
+
+
+@rule("C10.R6")
+def r6_slug_preemption(corpus: Corpus, rep: Report, tier: str):
+    rep.rule("C10.R6", "in the '#anchor' resolver only explicit targets may pre-empt the slug lookup (implicit section names are derived from the same titles as the slugs)")
+    wfi, wst, reg, kinds = _writer(corpus)
+    n = 0
+    for kind, name, esite in _exports(corpus, wfi, reg):
+        for f in corpus.all_functions():
+            if f.is_lambda or (f.cls is not None and wfi.cls is not None and f.cls.fq == wfi.cls.fq):
+                continue
+            for r in _reader_exprs(f, kind, name):
+                var = _reader_var(r)
+                if var is None:
+                    continue  # R5 reports it
+                # the branch that resolves a link from the slug table
+                for s_if in [x for x in f.local_nodes() if isinstance(x, ast.If) and _membership_table(x.test) == var and _stores_refid(x.body)]:
+                    rep.saw_function(f.fq)
+                    blk = None
+                    pp = parent(s_if)
+                    for fld in ("body", "orelse", "finalbody"):
+                        if s_if in getattr(pp, fld, []):
+                            blk = getattr(pp, fld)
+                    if blk is None:
+                        raise Unsupported(f"{f.module.site(s_if)}: position of the slug branch not understood")
+                    for e in blk[: blk.index(s_if)]:
+                        if not (isinstance(e, ast.If) and _stores_refid(e.body) and e.body and isinstance(e.body[-1], (ast.Continue, ast.Return))):
+                            continue
+                        n += 1
+                        table = _membership_table(e.test)
+                        if table is None:
+                            raise Unsupported(f"{f.module.site(e)}: a branch resolves the link before the slug lookup on a test that is not a table membership: {short(e.test, 50)}")
+                        k = f"{f.fq}|slug lookup pre-empted by `{table}`"
+                        sites = [x for x in f.local_nodes() if isinstance(x, ast.Assign) and any(isinstance(t, ast.Subscript) and isinstance(t.value, ast.Name) and t.value.id == table for t in x.targets)]
+                        if not sites:
+                            raise Unsupported(f"{f.module.site(e)}: cannot see how `{table}` is filled")
+                        verdicts = [_explicit_only(f, x, table) for x in sites]
+                        bad = [(x, v) for x, v in zip(sites, verdicts) if v[0] == "bad"]
+                        if bad:
+                            x, v = bad[0]
+                            rep.violation(
+                                "C10.R6",
+                                k,
+                                f.module.site(x),
+                                f"`{table}` is consulted before the heading slugs, but {v[1]}. Implicit section names are the normalised heading titles, so an anchor that equals "
+                                "another heading's title (`# a`, `# a`, `# a-1`: '#a-1') resolves to that other heading instead of its own",
+                                [f"{f.module.site(e)} if {short(e.test, 50)}: refid from `{table}`; continue", f"{f.module.site(s_if)} if {short(s_if.test, 40)}: refid from the slug record"],
+                            )
+                        else:
+                            rep.ok("C10.R6", k, f.module.site(e), verdicts[0][1])
+    rep.expect_min("C10.R6", 1, "the explicit-target branch that precedes the slug branch in ResolveAnchorIds.apply")
+
+
+RULES = [r1_uniquifier, r2_sibling_agreement, r3_depth, r4_foreign_callable, r5_record_layout, r6_slug_preemption]
 
 
 # ---------------------------------------------------------------------------
@@ -1344,10 +1837,20 @@ def mutants(corpus: Corpus):
         # increment before the candidate is rebuilt: first suffix becomes 2
         w = sh["loop"]
         inc_seg, c_seg = segment(src, sh["inc"]), segment(src, cdef)
-        if w.body.index(sh["inc"]) > w.body.index(cdef):
+        if sh["body"].index(sh["inc"]) > sh["body"].index(cdef):
             s2 = splice(src, sh["inc"], c_seg)
             s2 = splice(s2, cdef, inc_seg)  # cdef precedes inc: offsets before it are unchanged
             out.append(Mutant("c10-uniq-increment-first", "C10.R1", base.rel, s2, expect="suffix format"))
+    if sh is not None and sh["test"] is sh["loop"].test:
+        w = sh["loop"]
+        # class "candidate handed out without a (complete) re-check": one-shot suffix, bounded retry
+        head = segment(src, w)
+        if head.startswith("while "):
+            out.append(Mutant("c10-uniq-if-instead-of-while", "C10.R1", base.rel, splice(src, w, "if " + head[len("while "):]), expect="tested against the registry"))
+        out.append(Mutant("c10-uniq-bounded-retry", "C10.R1", base.rel, splice(src, w.test, f"{segment(src, w.test)} and {sh['counter']} < 100"), expect="tested against the registry"))
+        rets = [r for r in walk_local(cus.node) if isinstance(r, ast.Return) and isinstance(r.value, ast.Name) and r.value.id == sh["cand"]]
+        if rets and sh["base"] != sh["cand"]:
+            out.append(Mutant("c10-uniq-returns-base", "C10.R1", base.rel, splice(src, rets[-1].value, sh["base"]), expect="tested against the registry"))
     for fi, call in _cus_call_sites(corpus):
         reg = arg_or_kw(call, 1, "slugs")
         if reg is not None and fi.module is base:
@@ -1368,8 +1871,7 @@ def mutants(corpus: Corpus):
     if strip:
         c = strip[0][2]
         out.append(Mutant("c10-f8-strip-dropped", "C10.R2", dfi.module.rel, splice(dsrc, c, segment(dsrc, c.func.value)), expect="missing strip"))
-    else:
-        out.append(("c10-f8-strip-dropped", "F8 is not repaired on this tree: C10.R2 fires on the tree itself (missing strip)"))
+    # (while F8 is a known finding there is no strip() to drop: no revert mutant)
     low = [o for o in pipe if o[0] == "lower"]
     if low:
         c = low[0][2]
@@ -1392,6 +1894,32 @@ def mutants(corpus: Corpus):
             use = find_node(f, lambda n: isinstance(n, ast.Call) and isinstance(n.func, ast.Attribute) and n.func.attr == "use" and kwarg(n, "max_level") is not None)
             if use is not None:
                 out.append(Mutant("c10-cli-max-level-default", "C10.R2", cli.rel, splice(cli.src, kwarg(use, "max_level"), "2"), expect="CLI"))
+    pa = cli.func("print_anchors")
+    mk = find_node(pa, lambda n: isinstance(n, ast.Call) and cli.resolve(dotted(n.func) or "").endswith("config.main.MdParserConfig") and not n.args and not n.keywords)
+    if mk is not None:
+        # class "the CLI parses with a configuration / rule set other than the renderer's default"
+        out.append(Mutant("c10-cli-commonmark-only", "C10.R2", cli.rel, splice(cli.src, mk, segment(cli.src, mk.func) + "(commonmark_only=True)"), expect="default configuration"))
+        out.append(Mutant("c10-cli-gfm-only", "C10.R2", cli.rel, splice(cli.src, mk, segment(cli.src, mk.func) + "(gfm_only=True)"), expect="default configuration"))
+        out.append(Mutant("c10-cli-disable-syntax", "C10.R2", cli.rel, splice(cli.src, mk, segment(cli.src, mk.func) + '(disable_syntax=["front_matter"])'), expect="default configuration"))
+    use0 = find_node(pa, lambda n: isinstance(n, ast.Expr) and isinstance(n.value, ast.Call) and isinstance(n.value.func, ast.Attribute) and n.value.func.attr == "use" and isinstance(n.value.func.value, ast.Name))
+    if use0 is not None:
+        pv = use0.value.func.value.id
+        ind = " " * use0.col_offset
+        out.append(Mutant("c10-cli-disables-rule", "C10.R2", cli.rel, splice(cli.src, use0, f'{pv}.disable("front_matter")\n{ind}{segment(cli.src, use0)}'), expect="switch syntax rules"))
+    # ---- R6: class "names that are not explicit targets pre-empt the slug lookup"
+    tm = corpus.mod("mdit_to_docutils.transforms")
+    ap = tm.func("ResolveAnchorIds.apply")
+    loop = find_node(ap, lambda n: isinstance(n, ast.For) and isinstance(n.iter, ast.Call) and isinstance(n.iter.func, ast.Attribute) and n.iter.func.attr == "items" and _is_nametypes(n.iter.func.value) and isinstance(n.target, ast.Tuple))
+    if loop is not None:
+        flag = loop.target.elts[1].id
+        g = find_node(ap, lambda n: isinstance(n, ast.If) and n in loop.body and isinstance(n.test, ast.UnaryOp) and isinstance(n.test.operand, ast.Name) and n.test.operand.id == flag)
+        if g is not None:
+            out.append(Mutant("c10-preempt-guard-dropped", "C10.R6", tm.rel, splice(tm.src, g.test, "False"), expect="pre-empted"))
+            out.append(Mutant("c10-preempt-guard-inverted", "C10.R6", tm.rel, splice(tm.src, g.test, flag), expect="pre-empted"))
+            s2 = splice(tm.src, g.test, "False")  # g lies after the loop header: splice it first
+            s2 = splice(s2, loop.iter, segment(tm.src, loop.iter.func.value))
+            s2 = splice(s2, loop.target, segment(tm.src, loop.target.elts[0]))
+            out.append(Mutant("c10-preempt-all-names", "C10.R6", tm.rel, s2, expect="pre-empted"))
     # ---- R3
     for fi, call in _cus_call_sites(corpus):
         if fi.module is not base:
@@ -1439,6 +1967,10 @@ def mutants(corpus: Corpus):
         new = [segment(m.src, e) for e in te]
         new[p_id], new[p_t] = new[p_t], new[p_id]
         out.append(Mutant(f"c10-reader-unpack-swapped-{tag}", "C10.R5", m.rel, splice(m.src, tup.targets[0], ", ".join(new)), expect="unpack"))
+        if tag == "transform":
+            ind = " " * tup.col_offset
+            rec = segment(m.src, tup.value)
+            out.append(Mutant("c10-reader-positional-wrong-index", "C10.R5", m.rel, splice(m.src, tup, f"{new[p_t] if False else segment(m.src, te[p_id])} = {rec}[0]\n{ind}{segment(m.src, te[p_t])} = {rec}[{p_t}]"), expect="unpack"))
         new2 = [segment(m.src, e) for e in te]
         new2[0], new2[p_id] = new2[p_id], new2[0]
         out.append(Mutant(f"c10-reader-id-from-line-{tag}", "C10.R5", m.rel, splice(m.src, tup.targets[0], ", ".join(new2)), expect="unpack"))
